@@ -18,8 +18,8 @@ func (x *runner) sweeps() {
 	sum := x.sum
 	failed := map[string]int{}
 	run := func(name string, schema, input []byte, fault bool, kind string) {
-		if failed[name] >= 2 {
-			return // the family already produced its failures; do not pile up hung workers
+		if failed[name] >= 2 || hangs >= 4 {
+			return // the family already produced its failures / too many abandoned workers
 		}
 		c := mkCase(schema, input)
 		c.FaultAfter = fault
@@ -33,6 +33,14 @@ func (x *runner) sweeps() {
 			failed[name]++
 			x.report(c, o, "sweep-"+name, nil, kind)
 			return
+		}
+		if tree, ok := parseJSON(schema); ok {
+			if b := invariantBreach(tree); b != "" && !x.seenSig["breach"] {
+				x.seenSig["breach"] = true
+				fmt.Printf("FAILURE NewSchema accepted %s\n  schema: %s\n", b, schema)
+				sum.Fail("NewSchema accepted a declaration that breaks a reader invariant the validators establish (reader panic-freedom is proved for validated declarations only): "+b,
+					mkCase(schema, nil), map[string]interface{}{"origin": "sweep-" + name})
+			}
 		}
 		sum.Hist("sweep:" + kind + ":" + o.Terminal)
 	}
@@ -181,6 +189,79 @@ func (x *runner) sweeps() {
 				run(fmt.Sprintf("depth-fixedlength2-%d", d), []byte(fmt.Sprintf(`{%s,"file_declaration":{"envelopes":%s},%s}`, hdr("fixedlength2"), fl2, fo)), []byte(inf.String()), false, "hierarchy-depth")
 			}
 			run(fmt.Sprintf("depth-edi-%d", d), []byte(fmt.Sprintf(`{%s,"file_declaration":{"segment_delimiter":"~","element_delimiter":"*","segment_declarations":%s},%s}`, hdr("edi"), edi, fo)), []byte(ine.String()), false, "hierarchy-depth")
+		}
+	}
+
+	// 2e. duplicated root sections under every fold-orbit spelling of the key, with payloads that
+	// would panic or loop if they were loaded un-validated
+	{
+		good := map[string]string{
+			"parser_settings":        `{"version":"omni.2.1","file_format_type":"csv2"}`,
+			"file_declaration":       `{"delimiter":",","records":[{"name":"r","columns":[{"name":"a"}]}]}`,
+			"transform_declarations": `{"FINAL_OUTPUT":{"object":{"a":{"xpath":"a"}}}}`,
+		}
+		bad := map[string][]string{
+			"parser_settings":        {`{"version":"omni.2.1","file_format_type":"csv2","encoding":"nope"}`, `{"file_format_type":"xml"}`, `null`},
+			"file_declaration":       {`{"records":[{"name":"r","rows":0,"columns":[{"name":"a"}]}]}`, `{"records":[null]}`, `{"delimiter":"\"","records":null}`},
+			"transform_declarations": {`{"FINAL_OUTPUT":{"object":{"a":{"template":"t"}}},"t":null}`, `{"FINAL_OUTPUT":{"template":"t"},"t":null}`, `{"FINAL_OUTPUT":{"object":{"a":null}}}`, `{"FINAL_OUTPUT":null}`},
+		}
+		for _, key := range []string{"parser_settings", "file_declaration", "transform_declarations"} {
+			for _, variant := range append(caseVariants(key), key) {
+				for _, payload := range bad[key] {
+					for _, first := range []bool{false, true} {
+						var parts []string
+						dup := fmt.Sprintf("%q:%s", variant, payload)
+						if first {
+							parts = append(parts, dup)
+						}
+						for _, k := range []string{"parser_settings", "file_declaration", "transform_declarations"} {
+							parts = append(parts, fmt.Sprintf("%q:%s", k, good[k]))
+						}
+						if !first {
+							parts = append(parts, dup)
+						}
+						run("dup-root-"+key, []byte("{"+strings.Join(parts, ",")+"}"), []byte("x\ny\n"), false, "duplicated-root-key")
+					}
+				}
+			}
+		}
+	}
+
+	// 2f. more than one is_target, at different levels, named and unnamed declarations: validation
+	// must reject; if it accepts, Read must not panic (and the validator oracle reports it)
+	for _, topNamed := range []bool{true, false} {
+		for _, kidNamed := range []bool{true, false} {
+			for _, shape := range []string{"nested-last-child", "nested-first-child", "siblings", "grandchild"} {
+				nm := func(named bool, n string) string {
+					if named {
+						return `"name":"` + n + `",`
+					}
+					return ""
+				}
+				mk := func(kids, hdrKey string, hdrVal func(string) string, cols string) string {
+					kid := fmt.Sprintf(`{%s"header":%q,"is_target":true,"max":1%s}`, nm(kidNamed, "K"), hdrVal("K"), cols)
+					other := fmt.Sprintf(`{"name":"O","header":%q,"min":0%s}`, hdrVal("O"), cols)
+					switch shape {
+					case "nested-last-child":
+						return fmt.Sprintf(`[{%s"header":%q,"is_target":true%s,%q:[%s,%s]}]`, nm(topNamed, "T"), hdrVal("T"), cols, kids, other, kid)
+					case "nested-first-child":
+						return fmt.Sprintf(`[{%s"header":%q,"is_target":true%s,%q:[%s,%s]}]`, nm(topNamed, "T"), hdrVal("T"), cols, kids, kid, other)
+					case "siblings":
+						return fmt.Sprintf(`[{%s"header":%q,"is_target":true%s},%s]`, nm(topNamed, "T"), hdrVal("T"), cols, kid)
+					}
+					return fmt.Sprintf(`[{%s"header":%q,"is_target":true%s,%q:[{"name":"M","header":%q,%q:[%s]}]}]`, nm(topNamed, "T"), hdrVal("T"), cols, kids, hdrVal("M"), kids, kid)
+				}
+				fo := `"transform_declarations":{"FINAL_OUTPUT":{"object":{"a":{"xpath":"."}}}}`
+				in := "T1\nO1\nK1\nM1\nK2\nT2\nK3\n"
+				c2 := mk("child_records", "header", func(n string) string { return "^" + n }, `,"columns":[{"name":"a","index":1}]`)
+				run("multi-target-csv2", []byte(fmt.Sprintf(`{%s,"file_declaration":{"delimiter":",","records":%s},%s}`, hdr("csv2"), c2, fo)), []byte(in), false, "multi-target")
+				f2 := mk("child_envelopes", "header", func(n string) string { return "^" + n }, `,"columns":[{"name":"a","start_pos":1,"length":2}]`)
+				run("multi-target-fixedlength2", []byte(fmt.Sprintf(`{%s,"file_declaration":{"envelopes":%s},%s}`, hdr("fixedlength2"), f2, fo)), []byte(in), false, "multi-target")
+				if topNamed && kidNamed {
+					e := strings.ReplaceAll(mk("child_segments", "header", func(n string) string { return n }, ""), `"header":`, `"_comment":`)
+					run("multi-target-edi", []byte(fmt.Sprintf(`{%s,"file_declaration":{"segment_delimiter":"~","element_delimiter":"*","segment_declarations":%s},%s}`, hdr("edi"), e, fo)), []byte("T*1~O*1~K*1~M*1~K*2~T*2~K*3~"), false, "multi-target")
+				}
+			}
 		}
 	}
 
